@@ -102,6 +102,26 @@ func genC08(seed uint64, tier string) *Plan {
 				c = PickOne(r, []int{1000000, 1000001, 1000002, 2000001})
 				op = PickOne(r, []string{"=", "<>", "=", ">=", "<"})
 			}
+			if len(names) >= 2 && r.Bool(0.2) {
+				// one output name defined twice in the select list: the first
+				// definition is the output column, and HAVING is about output values
+				fa, fb := PickOne(r, names), PickOne(r, names)
+				der := fmt.Sprintf("%s %s %s AS %s", fa, PickOne(r, []string{"+", "-", "*"}), fb, fa)
+				dq := *q
+				switch r.Intn(3) {
+				case 0:
+					dq.Sel = []string{"*", der}
+				case 1:
+					dq.Sel = []string{der, "*"}
+				default:
+					dq.Sel = []string{fa + " AS n0", fmt.Sprintf("%s + %s AS n0", fb, fa), "_points"}
+					fa = "n0"
+				}
+				hd := dq
+				hd.Having = fmt.Sprintf("%s %s %d", fa, op, c)
+				p.Ops = append(p.Ops, Op{K: "having", S: hd.SQL(), S2: dq.SQL(), Strs: []string{fa, op, fmt.Sprint(c)}, B: true, N: 1})
+				break
+			}
 			hq := *q
 			hq.Having = fmt.Sprintf("%s %s %d", f, op, c)
 			plus := *q
@@ -329,6 +349,9 @@ func execC08(e *Env, p *Plan) error {
 				e.Count("nontrivial")
 			}
 			e.Count("op.having")
+			if op.N == 1 {
+				e.Count("probe.having-duplicate-name")
+			}
 		case "insub":
 			dim := op.Strs[0]
 			psub, palone := a.Prepare(op.S, true), a.Prepare(op.S2, true)
